@@ -18,7 +18,7 @@ MC = {"quick": [("MC_C17", "MC_C17.cfg", 8)], "thorough": [("MC_C17", "MC_C17.cf
 TRACE = ("Trace_C17", "Trace_C17.cfg")
 # the repository\'s own tests, recorded by harness/harvest_plugin.py, judged by the same trace specification
 ALSO = {"quick": [], "thorough": ["harness.props.hv17"]}
-REQUIRED = ["Format", "SaveOpen", "scalar-time", "period-seconds", "period-minutes", "period-hours", "period-days", "negative-offset",
+REQUIRED = ["Format", "SaveOpen", "scalar-time", "coarse-integer-axis", "period-seconds", "period-minutes", "period-hours", "period-days", "negative-offset",
             "fractional-offset", "single-digit-hour-offset", "zero-offset", "utc-date-differs", "style-iso", "style-isoT",
             "style-short", "style-loose", "style-zulu", "style-naive",
             "cf1d", "cf2d", "shoc_simple", "shoc_standard", "arakawa", "ugrid"]
@@ -100,6 +100,8 @@ def cases(tier: str, seed: int) -> list[dict]:
             if rep % 2 == 0:
                 worlds.append((w, {"a": "SaveOpen", "period": period, "civil": list(date) + list(tm), "sec": 0, "off": off,
                                    "style": style, "onestep": rng.randrange(2)}))
+                worlds.append((w, {"a": "SaveOpen", "period": rng.choice(["hours", "days"]), "civil": list(date) + list(tm), "sec": 0,
+                                   "off": off, "style": style, "onestep": -1, "coarse": True}))
     vias = ["memory", "file", "dask", "memory", "emsopen"]      # how the dataset that is saved is held (viafile.hold)
     for k, (w, e) in enumerate(worlds):
         out.append({"src": "gen", "world": dict(w, via=vias[k % len(vias)]), "events": [e]})
@@ -135,6 +137,11 @@ def execute(case: dict) -> dict:
     w["extras"] = [dict(x) for x in w["extras"]]
     tdim = w["extras"][0]
     tdim["coord"] = dict(tdim["coord"], encoding={"units": units, "calendar": "proleptic_gregorian"})
+    if e.get("coarse"):
+        # half-hour records on an integer axis counted in the requested (coarser) unit: xarray has to write a finer unit than
+        # the encoding asks for, and the units attribute of the FILE is what has to be rewritten
+        tdim["coord"]["step_minutes"] = 30
+        tdim["coord"]["encoding"]["dtype"] = "int32"
     from .. import viafile
     ds = viafile.hold_ds(w, W.build(w))
     e.setdefault("onestep", -1)
